@@ -12,6 +12,7 @@ The theorems about the parametric rows hold for ALL leaves, constants and real l
 -/
 import WntrModel.Lemmas.LinkRowsEval
 import WntrModel.Gen.RowsC02
+import WntrModel.Gen.UpdaterC02
 
 set_option linter.unusedSimpArgs false
 set_option linter.unusedVariables false
@@ -430,6 +431,81 @@ theorem power_pump_no_reverse_partial (P gamma hs he q : ℝ) (hP : 0 < P) (hg :
   have hq' : q ≤ 0 := not_lt.1 hq
   have : (hs - he) * q ≥ 0 := mul_nonneg_of_nonpos_of_nonpos (by linarith) hq'
   nlinarith
+
+/-! ### 7. the row in the model is the one for the CURRENT (hence reported) status -/
+
+/-- **registrations**: for every link of the zoo, in both modes / approximations, `create_hydraulic_model` registers with the
+ModelUpdater every attribute the row SHAPE depends on (`status`, `_is_isolated`, and `pump_curve_name` for head pumps) for the
+row's own Definition class, and every attribute the row's PARAMETERS are computed from (`setting`, `minor_loss`, `diameter`,
+`roughness`, `length`, `power`).  A dropped `updater.add(link, 'status', …)` breaks this. -/
+theorem updater_registers_link_rows :
+    (UpdaterC02.DD.linkRegs.all fun r => subsetB (rowDeps r.2.1 .default) r.2.2 && subsetB (paramDeps r.2.1) r.2.2) = true ∧
+    (UpdaterC02.PDD.linkRegs.all fun r => subsetB (rowDeps r.2.1 .piecewise) r.2.2 && subsetB (paramDeps r.2.1) r.2.2) = true ∧
+    (UpdaterC02.DD.linkRegs.map fun r => r.2.1) ⊇ [.pipe, .headPump, .powerPump, .prv, .psv, .fcv, .tcv] ∧
+    UpdaterC02.DD.linkRegs.map (fun r => r.1) = RowsC02.Default.rows.map (fun r => r.name) := by
+  refine ⟨?_, ?_, ?_, ?_⟩ <;> decide +kernel
+
+theorem changedAttrs_nil {a b : ShapeKey} (h : changedAttrs a b = []) : a = b := by
+  unfold changedAttrs at h
+  cases a; cases b
+  simp only [List.append_eq_nil_iff] at h
+  obtain ⟨⟨h1, h2⟩, h3⟩ := h
+  simp only [ShapeKey.mk.injEq]
+  refine ⟨?_, ?_, ?_⟩
+  · by_contra hn; simp [hn] at h1
+  · by_contra hn; simp [hn] at h2
+  · by_contra hn; simp [hn] at h3
+
+/-- **status_branch_consistent**: if every attribute in which the link differs from the state its row was built for is
+registered for the row's Definition class, then after the model update the row in the model is the row of the link's CURRENT
+status / isolation / curve.  Results are saved only after a post-solve pass that changes nothing, so that status is the reported
+one. -/
+theorem status_branch_consistent (regs : List (String × String)) (cls : String) (built cur : ShapeKey)
+    (hreg : ∀ a ∈ changedAttrs built cur, (a, cls) ∈ regs) : updateRow regs cls built cur = cur := by
+  unfold updateRow
+  split_ifs with h
+  · rfl
+  · cases hc : changedAttrs built cur with
+    | nil => exact changedAttrs_nil hc
+    | cons a t =>
+      exfalso; apply h
+      rw [List.any_eq_true]
+      exact ⟨a, by rw [hc]; simp, by simpa using hreg a (by rw [hc]; simp)⟩
+
+/-- every attribute `changedAttrs` can report is among `rowDeps` of a head pump; for the other kinds the curve never changes -/
+theorem status_branch_consistent_of_rowDeps (kind : LinkKind) (approx : Approx) (regs : List (String × String))
+    (built cur : ShapeKey) (hsub : subsetB (rowDeps kind approx) regs = true)
+    (hcurve : kind ≠ .headPump → built.curve = cur.curve) :
+    updateRow regs (rowDeps kind approx).head!.2 built cur = cur := by
+  apply status_branch_consistent
+  intro a ha
+  have hall : ∀ x ∈ rowDeps kind approx, x ∈ regs := by
+    intro x hx
+    have := List.all_eq_true.1 hsub x hx
+    simpa using this
+  unfold changedAttrs at ha
+  simp only [List.mem_append] at ha
+  rcases ha with (ha | ha) | ha
+  · split_ifs at ha with h1
+    · simp at ha
+    · simp only [List.mem_singleton] at ha; subst ha
+      apply hall; cases kind <;> cases approx <;> simp [rowDeps]
+  · split_ifs at ha with h1
+    · simp at ha
+    · simp only [List.mem_singleton] at ha; subst ha
+      apply hall; cases kind <;> cases approx <;> simp [rowDeps]
+  · split_ifs at ha with h1
+    · simp at ha
+    · simp only [List.mem_singleton] at ha; subst ha
+      by_cases hk : kind = .headPump
+      · subst hk; apply hall; cases approx <;> simp [rowDeps]
+      · exact absurd (hcurve hk) h1
+
+/-- the converse that makes the registration matter: with `status` not registered a status change leaves the stale row -/
+theorem unregistered_status_keeps_stale_row :
+    updateRow [("_is_isolated", "prv_headloss_constraint")] "prv_headloss_constraint"
+      { status := .active, isolated := false, curve := 0 } { status := .opened, isolated := false, curve := 0 } =
+      { status := .active, isolated := false, curve := 0 } := by decide
 
 /-! ### non-vacuity -/
 
